@@ -53,7 +53,7 @@ def case_strategy(draw):
         ncat = 2 + (2 if rands == "both" else 1)
         need = (0,) if rands == "unk" else (0, 2)
         opts = {"rands": rands}
-    allsky = draw(st.integers(0, 14)) == 14  # patches as large as hemispheres
+    allsky = draw(st.integers(0, 6)) == 6  # patches as large as hemispheres
     if allsky:
         scene = draw(gen.allsky_scene(theta_max, edges, ncat, need_z=need))
     elif huge:
@@ -223,7 +223,12 @@ def compare(case, cfg, cfs, ck: Checker):
                 if offd.sum() > 0 and np.diag(off).sum() > 0:
                     nontrivial = True
             if weighted:
-                good = np.isclose(got, e, rtol=1e-9, atol=1e-12 * max(1.0, np.abs(e).max()))
+                # (absolute part relative to the counts of all scales together: the library differences
+                # cumulative counts over all scale limits, which leaves residues of that magnitude)
+                per_bin = sum(np.abs(exp[k]).reshape(exp[k].shape[0], -1).max(axis=1) for k in range(ns))
+                if c["rweight"] is not None:
+                    per_bin = per_bin * np.array([abs(const.get(b, (0.0, 0.0))[1] or 0.0) if np.isfinite(const.get(b, (0.0, 0.0))[1] or 0.0) else 0.0 for b in range(len(per_bin))])
+                good = np.isclose(got, e, rtol=1e-9, atol=1e-12 * np.maximum(1.0, per_bin)[:, None, None])
             else:
                 good = got == e
             bad = judged & ~good
